@@ -55,3 +55,10 @@ _p("C20", "proof",
    "two shapes at the caller's tolerance (or the identity for almost-equal shapes); almost_equals, _affine_callback (per command family), the "
    "translation and identity cases are proved for symbolic coordinates. The arc case of _affine_callback is a recorded finding.",
    [BRIDGE, CPY, MATH])
+
+_p("C04", "other",
+   "Proved (all inputs): the stroke glue (name->engine constant tables, parameter binding, conics, simplify + documented fallback), dash-array parsing and "
+   "doubling, the opacity/paint/id bookkeeping of SVG._stroke with the stroke drawn above the fill, the tolerance, and the stroke-before-transform order in "
+   "_simplify (static). NOT decided by any contract within reach: the outline geometry itself (caps, joins, miter limit, dash phase, stroker resolution) "
+   "is Skia's stroker; a bounded component samples it on polylines (labelled bounded).",
+   [PATHOPS, BRIDGE, CPY, LXML])
